@@ -238,6 +238,27 @@ def highlight_code(text, lexer_name='python', **kwargs):
     return new_text
 
 
+def split_lf_lines(text):
+    """
+    Splits text into lines at line feeds only.
+
+    Unlike :func:`str.splitlines` the form feed, the vertical tab, the
+    FS / GS / RS controls, NEL and the unicode line / paragraph separators
+    stay inside their line; the interpreter does not end a line of a string
+    literal or of printed output there either.
+
+    Args:
+        text (str): text whose lines end in a line feed
+
+    Returns:
+        List[str]: the lines, without their line feeds
+    """
+    lines = text.split('\n')
+    if lines[-1] == '':
+        lines.pop()
+    return lines
+
+
 def add_line_numbers(source, start=1, n_digits=None):
     """
     Prefixes code with line numbers
@@ -261,7 +282,7 @@ def add_line_numbers(source, start=1, n_digits=None):
         3 c
     """
     was_string = isinstance(source, str)
-    part_lines = source.splitlines() if was_string else source
+    part_lines = split_lf_lines(source) if was_string else source
 
     if n_digits is None:
         endline = start + len(part_lines)
